@@ -1,9 +1,43 @@
 //! C16: VarInt and StreamId of the working tree, line protocol of DESIGN.md appendix A.
-use bytes::Buf;
+use bytes::{Buf, BufMut};
+use h3::proto::coding::{Decode, Encode};
+use h3::proto::stream::StreamType;
 use h3::proto::varint::VarInt;
 use h3::quic::StreamId;
+use h3::webtransport::SessionId;
 use h3v::{hex, run_lines, unhex};
 use std::convert::TryFrom;
+
+/// Lenient reading of `Display for StreamId` (the same function as `display_parse` of translate/gen_varint.py):
+/// case-insensitive initiator / direction words, the last run of digits.  `?` = not recognisable (then the
+/// words are not compared; the translator reports the unreadable wording).
+fn display_parse(text: &str) -> (&'static str, &'static str, String) {
+    let low = text.to_lowercase();
+    let (c, s) = (low.contains("client"), low.contains("server"));
+    let side = if c && !s { "client" } else if s && !c { "server" } else { "?" };
+    let dir = if low.contains("uni") { "uni" } else if low.contains("bi") { "bi" } else { "?" };
+    let mut num = String::new();
+    let mut cur = String::new();
+    for ch in text.chars() {
+        if ch.is_ascii_digit() {
+            cur.push(ch);
+        } else if !cur.is_empty() {
+            num = std::mem::take(&mut cur);
+        }
+    }
+    if !cur.is_empty() {
+        num = cur;
+    }
+    if num.is_empty() {
+        num.push('?');
+    }
+    (side, dir, num)
+}
+
+fn chunkbuf(chunks: &str) -> h3v::ChunkBuf {
+    let cs: Vec<bytes::Bytes> = if chunks == "-" { vec![] } else { chunks.split('.').map(|c| bytes::Bytes::from(unhex(c))).collect() };
+    h3v::ChunkBuf::new(cs)
+}
 
 fn main() {
     run_lines(|ws| match ws {
@@ -116,10 +150,12 @@ fn main() {
             match StreamId::try_from(x) {
                 Err(_) => "err invalid".into(),
                 Ok(id) => {
-                    // initiator and direction are private; Display shows them
-                    let d = format!("{}", id);
-                    let side = if d.starts_with("client") { "client" } else if d.starts_with("server") { "server" } else { "?" };
-                    let dir = if d.contains(" bidirectional") { "bi" } else if d.contains(" unidirectional") { "uni" } else { "?" };
+                    // initiator() and dir() are not public: `id + 0` is Self::new(index, self.dir(), self.initiator()),
+                    // whose two low bits are the discriminants of what dir() and initiator() returned
+                    // (no English words involved; Display is the separate family sid.disp)
+                    let low = (id + 0usize).into_inner() & 3;
+                    let side = if low & 1 == 0 { "client" } else { "server" };
+                    let dir = if low & 2 == 0 { "bi" } else { "uni" };
                     format!(
                         "ok {} {} {} {} {}",
                         side,
@@ -137,6 +173,110 @@ fn main() {
             let id = StreamId::try_from(x).unwrap();
             let r = id + (k as usize);
             format!("ok {}", r.into_inner())
+        }
+        ["sid.disp", x] => {
+            let x: u64 = x.parse().unwrap();
+            match StreamId::try_from(x) {
+                Err(_) => "err invalid".into(),
+                Ok(id) => {
+                    let (side, dir, num) = display_parse(&format!("{}", id));
+                    format!("ok {} {} {}", side, dir, num)
+                }
+            }
+        }
+        ["sid.enc", x] => {
+            let x: u64 = x.parse().unwrap();
+            match StreamId::try_from(x) {
+                Err(_) => "err invalid".into(),
+                Ok(id) => {
+                    let mut b = Vec::new();
+                    Encode::encode(&id, &mut b);
+                    format!("ok {}", hex(&b))
+                }
+            }
+        }
+        ["st.enc", x] => {
+            let x: u64 = x.parse().unwrap();
+            let t = StreamType::from_value(x);
+            assert_eq!(t.value(), x);
+            let mut b = Vec::new();
+            Encode::encode(&t, &mut b);
+            format!("ok {}", hex(&b))
+        }
+        ["st.dec", chunks] => {
+            let mut buf = chunkbuf(chunks);
+            let r = <StreamType as Decode>::decode(&mut buf);
+            let rest = buf.copy_to_bytes(buf.remaining());
+            match r {
+                Ok(t) => format!("ok {} {}", t.value(), hex(&rest)),
+                Err(e) => format!("err {} {}", e.0, hex(&rest)),
+            }
+        }
+        ["vi.sess", x] => {
+            let x: u64 = x.parse().unwrap();
+            match SessionId::try_from(x) {
+                Err(_) => "err invalid".into(),
+                Ok(sid) => {
+                    let inner = StreamId::from(sid).into_inner();
+                    let mut b = Vec::new();
+                    Encode::encode(&sid, &mut b);
+                    format!("ok {} {}", inner, hex(&b))
+                }
+            }
+        }
+        ["vi.sessd", chunks] => {
+            let mut buf = chunkbuf(chunks);
+            let r = <SessionId as Decode>::decode(&mut buf);
+            let rest = buf.copy_to_bytes(buf.remaining());
+            match r {
+                Ok(s) => format!("ok {} {}", StreamId::from(s).into_inner(), hex(&rest)),
+                Err(e) => format!("err {} {}", e.0, hex(&rest)),
+            }
+        }
+        ["vi.from", w, x] => {
+            // the infallible constructors
+            let x: u64 = x.parse().unwrap();
+            let v: VarInt = match *w {
+                "8" => VarInt::from(u8::try_from(x).unwrap()),
+                "16" => VarInt::from(u16::try_from(x).unwrap()),
+                "32" => VarInt::from(u32::try_from(x).unwrap()),
+                _ => VarInt::from_u32(u32::try_from(x).unwrap()),
+            };
+            assert_eq!(u64::from(v), x);
+            let mut b = Vec::new();
+            v.encode(&mut b);
+            format!("ok {}", hex(&b))
+        }
+        ["vi.encp", which, pre, x] => {
+            // encode onto a target that already holds bytes: Vec, BytesMut, or a fixed slice
+            let x: u64 = x.parse().unwrap();
+            let pre = unhex(pre);
+            match VarInt::from_u64(x) {
+                Err(_) => "err bounds".into(),
+                Ok(v) => match *which {
+                    "v" => {
+                        let mut b = pre.clone();
+                        v.encode(&mut b);
+                        format!("ok {}", hex(&b))
+                    }
+                    "b" => {
+                        let mut b = bytes::BytesMut::with_capacity(1);
+                        b.put_slice(&pre);
+                        v.encode(&mut b);
+                        format!("ok {}", hex(&b))
+                    }
+                    _ => {
+                        let mut arr = [0xeeu8; 96];
+                        let n = {
+                            let mut sl = &mut arr[..];
+                            sl.put_slice(&pre);
+                            v.encode(&mut sl);
+                            96 - sl.remaining_mut()
+                        };
+                        format!("ok {}", hex(&arr[..n]))
+                    }
+                },
+            }
         }
         _ => "driver-error unknown-case".into(),
     });
